@@ -200,6 +200,22 @@ def run(chk):
         eq('R07.2', f'legacy {fname}(omega, 1/mu, eta, ...) == J_published ({model})', J, JREF[model], ml.where(f), key=f'R07.2|{fname}')
         eq('R07.2', f'legacy {fname} * models.{model} == 1', J * main[model], X.ONE, ml.where(f))
         guard_reach(chk, fname, J, JREF[model], ml.where(f))
+    # the compiled models switch to their extreme-value returns below MIN_FREQUENCY / above MAX_FREQUENCY / below MIN_MODULUS: those thresholds must lie outside the stated range
+    mc = repo.by_path('TidalPy/utilities/constants_x.pyx')
+    itc = Interp(repo)
+    for cname, bound, side in (('MIN_FREQUENCY', BOX['omega'][0], 'below'), ('MAX_FREQUENCY', BOX['omega'][1], 'above'), ('MIN_MODULUS', BOX['mu'][0], 'below')):
+        try:
+            cv = itc.global_name(mc, cname)
+        except AnalysisError:
+            cv = None
+        cval = None
+        if cv is not None:
+            from ..core.interp import concrete as _conc
+            c_ = _conc(X.lift(cv)) if not isinstance(cv, (int, float)) else cv
+            cval = float(c_) if c_ is not None else None
+        ok = cval is not None and (cval <= bound if side == 'below' else cval >= bound)
+        chk.ob('R07.8', f'{cname} lies {side} the stated range (the extreme-value return of the compiled models is not taken inside it)', ok, f'{cname} = {cval!r}, range bound {bound:g}', mc.rel(),
+               key=f'R07.8|{cname}', method='constant extraction')
     f = need_func(ml, 'off')
     eq('R07.2', 'legacy off == elastic compliance', it2.call(ml, f, [w, comp, eta]), 1 / mu, ml.where(f))
 
